@@ -108,7 +108,7 @@ def bitfieldIterNext (H : Hash) (anchor : Node) (depth : Nat) (st : BitfieldIter
       if !node.isLeaf then none
       else
         let root := node.root H
-        -- `el = (self.currentRoot[0] & 1 == 1)`, i.e. `currentRoot[0] & (1 == 1)`: the int 0 or 1
+        -- `el = (self.currentRoot[0] & 1 == 1)` (in Python `&` binds tighter than `==`)
         let el := ((root.getD 0 0).toNat &&& 1) == 1
         some (el, { i := st.i + 1, j := 1, rootIndex := st.rootIndex + 1,
                     currentRoot := root, stack := walk.stack })
